@@ -658,7 +658,10 @@ CHECKS["C14"].update({
     "note": ("Trusted: Lean kernel; Cfg flag extraction (ast / regex); generators; snakecase_to_camelcase enters as a table computed by the real function "
              "(theorems hold for every renaming). Only exercised by the oracle, not modelled: validate(), Schema.implementations / _possible_types (derived "
              "indexes), merge_resolvers' assignment onto fields, default values (opaque strings in the model), enum value objects, interfaces added to an "
-             "EXISTING type by `extend type X implements I`. history_inplace_closed_framed steps with extendO (= extend + interfaces of new types + dict order); the "
+             "EXISTING type by `extend type X implements I`; OPEN (named in Lean as `def VisibleMembersKept`, not proved): when a visibility transform hides "
+             "TYPES as well, that every field not mentioning a hidden type survives the healing rounds (the upper bounds Sub2 / visibility_hides_* and "
+             "the type-level lower bound visibility_keeps_visible_types are proved; the harness's oracle checks the member-level lower bound on the "
+             "real code). history_inplace_closed_framed steps with extendO (= extend + interfaces of new types + dict order); the "
              "histories of the first wave (history_closed_framed, run_ops_*) step with extend. Known findings T13, T14, "
              "T15-residue, T19 (see known_findings.json). Repaired on the way: S2, T1-T12, T15-T18, U1."),
     "technique": "Lean 4 proof over an object-heap model (closedness, frame, ownership, preservation, refinement; induction over derivation histories) + live object-graph correspondence and identity oracles",
